@@ -40,7 +40,9 @@ from .census import census_check  # noqa: E402
 
 _TBB = ["CPython executing the real functions", "in-memory lmdb/msgpack stand-ins (/verif/stubs)", "sqlite3", "the NIP-01 oracle in /verif/bounded/query_enum.py"]
 PROPERTIES = {
-    "C02": {"level": "exploration", "trusted_base": _TBB + _TB, "assumptions": ["EV", "LMDBSTUB", "ENUM"], "extra_checks": [query_enum_check("C02")]},
+    # (the round trip is part of "delivers each of them before EOSE": an event whose frame cannot be built is never sent)
+    "C02": {"level": "exploration", "trusted_base": _TBB + _TB, "assumptions": ["EV", "LMDBSTUB", "ENUM", "RTRIP"],
+            "extra_checks": [query_enum_check("C02"), roundtrip_check("C02")]},
     "C11": {"level": "exploration", "trusted_base": _TBB, "assumptions": ["EV", "LMDBSTUB", "ENUM"], "extra_checks": [query_enum_check("C11")]},
     "C12": {"level": "proof", "trusted_base": _TB, "assumptions": ["EV", "LMDB", "SQL", "ENUM", "STARTUP"],
             "extra_checks": [query_enum_check("C12"),
@@ -135,7 +137,7 @@ def replay(prop, path):
     if rp["unit"] == "bounded:storage-entry-census":
         from .census import scan, ALLOWED
         sites, _n = scan(os.environ.get("PYVC_REPO", "/repo"))
-        bad = [x for x in sites if x[3].split(" ")[0] not in ALLOWED[x[0]] or "(raw INSERT)" in x[3]]
+        bad = [x for x in sites if x[3].split(" ")[0] not in ALLOWED[x[0]] or "(" in x[3]]
         print(json.dumps(bad, indent=1))
         if bad:
             print("VIOLATION property=%s replay=%s" % (prop, path))
